@@ -160,7 +160,7 @@ impl Sub for LateDelete {
         let round = (prop::collection::vec(add_strategy(), 2..9), any::<u16>(), prop::bool::weighted(0.5));
         (2u8..=4, 1u16..=2, 2u8..4, prop::sample::select(&[DirKind::Ram, DirKind::Sim][..]), prop::collection::vec(round, 2..9))
             .prop_map(|(threads, flush_every, min_segs, dir, rounds)| LateDeleteCase {
-                cfg: HistCfg { threads, flush_every, policy: Policy::LogSmall(min_segs), sorted: None, dir, tiny_blocks: false, short_writes: false, codec_switch: false },
+                cfg: HistCfg { threads, flush_every, policy: Policy::LogSmall(min_segs), sorted: None, dir, tiny_blocks: false, short_writes: false, codec_switch: false, jitter: 0 },
                 rounds,
             })
             .boxed()
